@@ -549,7 +549,9 @@ class File(resource.Resource, filepath.FilePath[str]):
             request.setHeader(
                 b"content-range", networkString("bytes */%d" % (self.getFileSize(),))
             )
-            return [], b""
+            # No part to send: a single empty part without separator lets the
+            # producer finish the response with an empty body.
+            return [(b"", 0, 0)]
         finalBoundary = b"\r\n--" + boundary + b"--\r\n"
         rangeInfo.append((finalBoundary, 0, 0))
         request.setResponseCode(http.PARTIAL_CONTENT)
